@@ -127,7 +127,7 @@ def check_property(pid, tier, seed):
     violations = []      # (replay path, concrete: bool)
     # ------------------------------------------------------------ 1. build + proof obligations
     bst = B.build()
-    proof = PR.proof_status(pid, bst)
+    proof = PR.proof_status(pid, bst, tier)
     if not proof["ok"]:
         path = write_replay(pid, "proof", {"property": pid, "kind": "proof-obligation",
                                            "broken": proof["broken"], "log": bst.get("log", "")[-3000:],
@@ -165,7 +165,18 @@ def check_property(pid, tier, seed):
         events = r.get("events")
         payload = {"property": pid, "kind": kind, "detail": detail, "cfg": r.get("cfg"),
                    "seed": r.get("seed"), "profile": r.get("profile"), "events": events}
-        if concrete and events and r.get("cfg") is not None and tier != "noshrink":
+        is_meta = bool(r.get("meta", {}).get(pid)) and pid not in r.get("mon", {})
+        if is_meta:
+            # a two-run (metamorphic) failure: the detail carries both event lists; `./check replay` re-runs the pair
+            payload["kind"] = "monitor-two-run"
+            if tier != "noshrink":
+                try:
+                    import metamorphic
+                    payload["detail"] = metamorphic.shrink_pair(detail, budget=40 if tier == "quick" else 120)
+                    payload["events"] = metamorphic.untag(payload["detail"].get("base_events") or events or [])
+                except Exception:
+                    payload["shrink_error"] = traceback.format_exc()
+        if concrete and events and r.get("cfg") is not None and tier != "noshrink" and not is_meta:
             try:
                 small = S.shrink(r["cfg"], events, lambda rr: pid in rr["mon"], seed=r.get("seed") or 0,
                                  budget=60 if tier == "quick" else 200)
@@ -188,8 +199,12 @@ def check_property(pid, tier, seed):
     # ------------------------------------------------------------ 3. evidence
     wall = time.time() - t0
     ev = PR.evidence(pid, tier, seed, bst, proof, stats, streams_used, wall, len(violations))
-    os.makedirs(EVID, exist_ok=True)
-    json.dump(ev, open(os.path.join(EVID, pid + ".json"), "w"), indent=1)
+    # evidence describes checks of /repo itself; a run against another source tree
+    # (VERIF_REPO_SRC: seeded-change experiments) must not overwrite it
+    evdir = EVID if os.environ.get("VERIF_REPO_SRC", "/repo/src").rstrip("/") == "/repo/src" \
+        else os.path.join(CACHE, "evidence-other-tree")
+    os.makedirs(evdir, exist_ok=True)
+    json.dump(ev, open(os.path.join(evdir, pid + ".json"), "w"), indent=1)
     # concrete violations first
     violations.sort(key=lambda v: not v[1])
     seen_concrete = any(v[1] for v in violations)
